@@ -133,8 +133,8 @@ theorem substitute_general_some {α : Type _} (z : α) (neg : α → α) (prim :
         · omega
       obtain ⟨j', hj', ej⟩ := t d hd5 hno
       exact ⟨j', hj', ej⟩
-    · intro j hj hsq
-      have hj5 : j < h5.net.nodes.size := by rw [← hVN]; exact hj
+    · intro j0 j hm hsq
+      have hj5 : j < h5.net.nodes.size := (hmapLt j0 j hm).1
       have hk : (h5.net.node j).kind = (V.net.node j).kind := lk.kind j hj5
       obtain ⟨j', hj', ej⟩ := sq j (by rw [dd.nsize]; exact hj5) (by rw [dd.kind, hk]; exact hsq)
       exact ⟨j', hj', ej⟩
